@@ -381,7 +381,7 @@ def replay(part, cex):
             return replay_rule(cex)
         if part.startswith('wiring'):
             return _wiring_body(cex)
-        if part == 'invoke':
+        if part.startswith('invoke'):
             return _invoke_body(cex)
         if part == 'unchecked':
             return _unchecked_accepts(cex)
